@@ -5,6 +5,7 @@ from common import hexs
 PROP = "C19"
 HARNESS = "pb"
 COMPONENT = "pb"
+TIE = ["TranslatedPb"]      # Lemmas/TranslatedPb.lean: Model/Printbuf.lean = printbuf.c as translated by tools/extract/c2lean.py
 VARIANT = "asan"
 INT_MAX = 2147483647
 RULE = ("histories of printbuf ops (append / claimed-size append / memappend_fast macro / memset / sprintbuf / reset) "
